@@ -26,6 +26,8 @@ pub fn memo_bases(tier: Tier) -> Vec<(Grammar, Vec<String>)> {
         choice(vec![seq(vec![and(rref("A")), field("a", "A"), lit("x")]), seq(vec![not(seq(vec![rref("A"), lit("x")])), field("a", "A")]), field("b", "B")]),
         // nested callers: B is reached from Root and from A
         choice(vec![seq(vec![field("b", "B"), lit("x")]), seq(vec![field("a", "A"), opt(field("b", "B"))]), star(field("b", "B"))]),
+        // a failed attempt, then an unrelated alternative that fails further to the right, then the same attempt again
+        choice(vec![seq(vec![field("a", "A"), lit("x")]), seq(vec![lit("b"), lit("b"), lit("b"), lit("c")]), seq(vec![field("a", "A"), lit("c")]), seq(vec![lit("b"), lit("c"), lit("c")]), field("b", "B")]),
     ];
     let a_atoms = vec![lit("b"), lit("c"), field("b", "B"), rref("B")];
     let b_atoms = vec![lit("b"), lit("c"), lit("bc")];
